@@ -64,6 +64,10 @@ Definition rs_supported (s : rstate) : bool := match s with RSSupported => true 
 Definition rs_set (s : rstate) (capable : bool) : rstate :=
   match s with RSUnknown => if capable then RSSupported else RSUnsupported | _ => s end.
 
+(* registry/remote/utils.go defaultMaxMetadataBytes (regenerated) and the effective limit *)
+Definition eff_limit (max_metadata_bytes : N) : N :=
+  if max_metadata_bytes =? 0 then Z.to_N c13_defaultMaxMetadataBytes else max_metadata_bytes.
+
 Definition zero_digest : str := zeroDigest.              (* registry/remote/referrers.go *)
 
 Definition nstr (o : option str) : str := match o with Some s => s | None => [] end.
@@ -75,6 +79,9 @@ Section Client.
   Variable subject_of : str -> option (option desc).
   Variable main other : str.
   Variable user_mts : list str.                  (* Repository.ManifestMediaTypes *)
+  (* effective Repository.MaxMetadataBytes (the regenerated default when <= 0): limitSize on
+     the descriptor of a manifest the client decodes, and the bound on the body it hashes *)
+  Variable limit : N.
 
   Variable srv : Type.
   Variable exch : srv -> request -> srv * response.
@@ -128,7 +135,8 @@ Section Client.
               let cd : option str :=
                 match srvd with
                 | [] => if hd then (match refd with [] => None | _ => Some refd end)
-                        else Some (H (r_body r))
+                        (* calculateDigestFromResponse: a body over the limit is refused *)
+                        else if limit <? len (r_body r) then None else Some (H (r_body r))
                 | _ => Some srvd
                 end in
               match cd with
@@ -326,8 +334,9 @@ Section Client.
   Definition man_push (s : srv) (rst : rstate) (d : desc) (c : str) (rf : str)
     : srv * rstate * trace * result :=
     if indexable (d_mt d) && negb (rs_supported rst) then
-      (* content.ReadAll(r, expected) *)
-      if negb (len c =? d_sz d) || negb (str_eqb (H c) (d_dg d)) then (s, rst, [], RErr EOther)
+      (* limitSize(expected); content.ReadAll(r, expected) *)
+      if limit <? d_sz d then (s, rst, [], RErr EOther)
+      else if negb (len c =? d_sz d) || negb (str_eqb (H c) (d_dg d)) then (s, rst, [], RErr EOther)
       else
         let '(s1, rst1, t1, res) := man_put s rst d c true rf in
         match res with
@@ -345,6 +354,7 @@ Section Client.
   (* deleteWithIndexing *)
   Definition man_delete (s : srv) (rst : rstate) (d : desc) : srv * rstate * trace * result :=
     if indexable_del (d_mt d) && negb (rs_supported rst) then
+      if limit <? d_sz d then (s, rst, [], RErr EOther) else       (* limitSize(target) *)
       let '(s1, t1, res) := man_fetch s d in
       match res with
       | RBytes c =>
@@ -471,6 +481,7 @@ Section Run.
   Variable subject_of : str -> option (option desc).
   Variable main other : str.
   Variable user_mts : list str.
+  Variable limit : N.
   Variable p : profile.
   Variable kor : option (N * corruption).
 
@@ -488,7 +499,7 @@ Section Run.
 
   Definition run_history (other_blobs : list (str * str)) (rst : rstate) (os : list op)
     : reg * list (trace * result) :=
-    let '(s, _, out) := run_ops H parse_mt subject_of main other user_mts (reg * N) cexch
+    let '(s, _, out) := run_ops H parse_mt subject_of main other user_mts limit (reg * N) cexch
                                 (reg0 other_blobs, 0) rst os in
     (fst s, out).
 End Run.
